@@ -284,6 +284,28 @@ def curly_field_sources():
     return out
 
 
+def escape_merge_sources():
+    """f-strings whose literal text (also in a format spec and in a nested f-string) holds a character that is written as an
+    escape, directly followed by a character that could extend that escape (`\\0` + octal digit, `\\x0` + hex digit, ...) or end the literal"""
+    escaped = ['\0', '\x01', '\x07', '\x08', '\x0b', '\x0c', '\x1b', '\x7f', '\t', '\n', '\r', '\\', '\x85', '\u2028']
+    followers = ['0', '1', '7', '8', '9', 'a', 'f', 'x', 'N', 'u', 'U', '{{', '}}', '"', "'", '\\', '']
+    out = []
+    for e in escaped:
+        for f in followers:
+            text = e + f
+            for build in (lambda t: 'x = 1\ny = f%r\n' % ('id' + t.replace('{{', '{{').replace('}}', '}}') + '{x}'),
+                          lambda t: 'x = 1\ny = f%r\n' % ('{x}' + t + 'tail'),
+                          lambda t: 'x = 1\ny = f%r\n' % ('{x:' + t.replace('{{', '').replace('}}', '') + '}'),
+                          lambda t: 'x = 1\ny = f"{f%r}"\n' % (t + '{x}')):
+                try:
+                    src = build(text)
+                    compile(src, '<c12>', 'exec', dont_inherit=True)
+                    out.append(src)
+                except (SyntaxError, ValueError):
+                    pass
+    return sorted(set(out))
+
+
 def nested_string_attacks():
     """string and bytes constants *inside a replacement field* whose value tries to close whatever literal the printer may
     choose (plain, raw, bytes; either quote; triple quotes) and continue as code: backslash runs before a quote, doubled and
